@@ -102,6 +102,12 @@ func (c *conn) terminate(err error) error {
 	return c.stream.Close() // Close the connection
 }
 
+// broken reports whether the connection has been terminated by something else
+// than an explicit Close(): an I/O error or a canceled request.
+func (c *conn) broken() bool {
+	return !c.closed.Load() && c.ctx.Err() != nil
+}
+
 // checkAvailable checks if the connection is available for use.
 // It returns net.ErrClosed if the connection has been closed.
 // If the provided context or the connection's internal context is done,
